@@ -69,6 +69,8 @@ func newC20World() *c20World {
 		return &packages.RawPackage{Files: packages.Files{
 			"manifest.yaml": []byte(fmt.Sprintf("pull-%d-of-%s", n, image)),
 			"obj.yaml":      []byte("kind: ConfigMap"),
+			// an empty file as the importers produce it (io.ReadAll: length 0, spare capacity)
+			"empty.yaml": make([]byte, 0, 64),
 		}}, nil
 	})
 	return cw
@@ -100,7 +102,15 @@ func aliased(a, b *packages.RawPackage) bool {
 		return true
 	}
 	for k, va := range a.Files {
-		if vb, ok := b.Files[k]; ok && len(va) > 0 && len(vb) > 0 && &va[0] == &vb[0] {
+		vb, ok := b.Files[k]
+		if !ok {
+			continue
+		}
+		if len(va) > 0 && len(vb) > 0 && &va[0] == &vb[0] {
+			return true
+		}
+		// empty slices with spare capacity: appending in place must not write into the other caller's array
+		if cap(va) > 0 && cap(vb) > 0 && &va[:1][0] == &vb[:1][0] {
 			return true
 		}
 	}
